@@ -230,7 +230,92 @@ pub fn run_case(ctx: &mut Ctx, c: &Case) {
     }
 }
 
+/// Production constants: data-dependent alignments that sampling does not reach.
+/// (a) compression over encryption, incompressible appends: the flush comes when the chunk in
+///     progress holds `r` bytes (r below / at / above the tag length), small appends before it so
+///     that the repair is reading small blocks there;
+/// (b) the first complete compressed block ends `r` bytes after an edge of the repair's 4 KiB
+///     input window, more data and a flush following.
+fn tuned_cases(ctx: &mut Ctx) -> Vec<Case> {
+    let k = ctx.k;
+    let mut v = Vec::new();
+    let file = |data| vec![FileSpec { name: NameKind::Plain(0), data }];
+    let in_chunk: &[i64] = if ctx.quick() { &[8, 15] } else { &[1, 2, 8, 15, 16, 17, 0] };
+    for (i, r) in in_chunk.iter().enumerate() {
+        if !ctx.mine(1000 + i as u64) {
+            continue;
+        }
+        let seed = ctx.seed ^ 0x14A ^ i as u64;
+        let mk = |x: i64| {
+            let mut ops = vec![Op::Start(0), Op::Append(0, Sz::lit(120_000)), Op::Append(0, Sz::lit(x))];
+            ops.extend((0..18).map(|_| Op::Append(0, Sz::lit(500))));
+            ops.extend([Op::Flush, Op::End(0), Op::Flush, Op::Finalize]);
+            Program { layers: 3, level: 1, nrecip: 1, files: file(DataKind::Random), ops, seed }
+        };
+        let ct = k.chunk_tag() as i64;
+        let obs = |b: &drv::Built| -> Option<i64> {
+            let hl = fmt::dec_header(&b.raw).ok()?.len;
+            Some(b.flush_marks.first()?.0 as i64 - hl as i64)
+        };
+        match crate::tune::tune(&mk, &k, 5000, ct, ct + *r, 1, &obs, 8) {
+            Some((p, _)) => {
+                ctx.count("musthit:flush_with_less_than_a_tag_in_the_chunk_in_progress");
+                v.push(Case { prog: p });
+            }
+            None => ctx.count("tuning_not_converged"),
+        }
+    }
+    let after_window: &[i64] = if ctx.quick() { &[1] } else { &[1, 0, 2, 4095] };
+    for (i, r) in after_window.iter().enumerate() {
+        for (j, layers) in [2u8, 3].into_iter().enumerate() {
+            if !ctx.mine(1100 + (2 * i + j) as u64) {
+                continue;
+            }
+            // zeros first (their number steers the size), incompressible data over the block edge
+            let mut found = false;
+            for attempt in 0..6u64 {
+                let seed = ctx.seed ^ 0x14B ^ (i as u64) << 8 ^ attempt;
+                let mk = |z: i64| Program {
+                    layers,
+                    level: 1,
+                    nrecip: 1,
+                    files: vec![FileSpec { name: NameKind::Plain(0), data: DataKind::Constant(0) }, FileSpec { name: NameKind::Plain(1), data: DataKind::Random }],
+                    ops: vec![Op::Add(0, Sz::lit(z)), Op::Start(1), Op::Append(1, Sz::new(1, 0, 0)), Op::Append(1, Sz::lit(1 << 20)), Op::Flush, Op::End(1), Op::Flush, Op::Finalize],
+                    seed,
+                };
+                let first_block = |b: &drv::Built| -> Option<(Vec<u8>, fmt::Decoded)> {
+                    let d = fmt::decode_archive(&k, &b.raw, &b.sks).ok()?;
+                    let comp = d.comp.as_ref()?;
+                    let body = &b.raw[d.header.len..];
+                    let cs: &[u8] = d.enc_plain.as_deref().unwrap_or(body);
+                    Some((cs[comp.offsets[0]..comp.offsets[0] + comp.sizes[0] as usize].to_vec(), d))
+                };
+                let obs = |b: &drv::Built| -> Option<i64> { first_block(b).map(|(blk, _)| blk.len() as i64) };
+                let Some((p, b)) = crate::tune::tune(&mk, &k, 200_000 + 97 * attempt as i64, 4096, *r, -1, &obs, 8) else { continue };
+                let Some((blk, _)) = first_block(&b) else { continue };
+                if fmt::brotli_decompress_prefix(&blk[..blk.len() - 1]).len() as u64 == k.block {
+                    ctx.count("musthit:block_end_after_input_window_edge_last_byte_not_needed");
+                    v.push(Case { prog: p });
+                    found = true;
+                    break;
+                }
+            }
+            if !found {
+                ctx.count("tuning_not_converged");
+            }
+        }
+    }
+    v
+}
+
 pub fn run(ctx: &mut Ctx) {
+    if ctx.k.is_prod() {
+        for c in tuned_cases(ctx) {
+            if ctx.journal(&json!({"prop": "C14", "scenario": {"case": c, "k": ctx.k.name()}})) {
+                run_case(ctx, &c);
+            }
+        }
+    }
     let cs = cases(ctx);
     for (i, c) in cs.iter().enumerate() {
         if !ctx.mine(i as u64) {
